@@ -41,10 +41,31 @@ struct Trace
     std::vector<size_t> stored; // raw_len after each byte
 };
 
-Trace run_stream(Kind k, size_t cap, const Bytes &stream)
+// Re-arm scenario (target recv_rearm): `pre` is fed to a receiver of capacity pre_cap first (bounded + ASan only),
+// then the receiver is handed a fresh buffer of `cap` bytes through setbuf and `stream` follows. The predicates are
+// evaluated on `stream` alone, with the re-arm point standing in for "the last start marker" of a frame that was open
+// when the buffer was replaced (the new buffer starts empty, so nothing received before it may be delivered).
+struct Rearm
+{
+    Bytes pre;
+    size_t pre_cap;
+};
+
+Trace run_stream(Kind k, size_t cap, const Bytes &stream, const Rearm *ra = nullptr)
 {
     Trace t;
-    auto rx = k == K_LEGACY ? make_legacy_receiver(cap) : make_cfg_receiver(k == K_V1 ? kV1 : kV0, cap);
+    auto rx = k == K_LEGACY ? make_legacy_receiver(ra ? ra->pre_cap : cap) : make_cfg_receiver(k == K_V1 ? kV1 : kV0, ra ? ra->pre_cap : cap);
+    if (ra)
+    {
+        for (size_t i = 0; i < ra->pre.size(); i++)
+        {
+            rx->feed(ra->pre[i]);
+            VP_CHECK(rx->raw_len() <= ra->pre_cap - 1, "bounded_len", "%s cap %zu: %zu bytes stored after byte %zu of the part before the re-arm", kind_name[k],
+                     ra->pre_cap, rx->raw_len(), i);
+        }
+        rx->rearm(cap);
+        VP_CHECK(rx->raw_len() == 0, "rearm_not_empty", "%s: %zu bytes stored right after setbuf", kind_name[k], rx->raw_len());
+    }
     for (size_t i = 0; i < stream.size(); i++)
     {
         Status s = rx->feed(stream[i]);
@@ -93,10 +114,11 @@ const Delivery *delivered_at(const Trace &t, size_t pos)
 
 std::string show(const Bytes &b) { return hexdump(b.data(), b.size(), 100); }
 
-void check_stream(Kind k, size_t cap, const Bytes &stream, Case &c)
+void check_stream(Kind k, size_t cap, const Bytes &stream, Case &c, const Rearm *ra = nullptr)
 {
     const Alphabet &a = k == K_V1 ? kV1 : kV0;
-    Trace t = run_stream(k, cap, stream);
+    const bool rearmed = ra != nullptr;
+    Trace t = run_stream(k, cap, stream, ra);
 
     // ---- sound (and overflow: a delivered packet always fits) --------------------------
     for (auto &d : t.del)
@@ -117,7 +139,7 @@ void check_stream(Kind k, size_t cap, const Bytes &stream, Case &c)
             }
         }
         size_t body_from = found ? j + 1 : 0;
-        if (!found)
+        if (!found && !rearmed)
             VP_CHECK(k == K_LEGACY, "sound_no_start", "%s: NEWPACKAGE at %zu without any start marker before it; stream %s", kind_name[k], i,
                      show(stream).c_str());
         if (found && !a.same())
@@ -181,6 +203,8 @@ void check_stream(Kind k, size_t cap, const Bytes &stream, Case &c)
             must = (adjacent_prev && occ[n - 1].unescaped <= cap - 1) || (clean_prefix && k != K_LEGACY) || (o.open == 0);
             if (k == K_LEGACY && clean_prefix && o.open > 0)
                 must = true; // legacy: garbage before the first delimiter is closed by it (crc error), the frame follows
+            if (rearmed)
+                must = adjacent_prev && occ[n - 1].unescaped <= cap - 1; // the receiver may be mid-frame at the re-arm: second frame of a run at the latest
         }
         const Delivery *d = delivered_at(t, o.close);
         if (fits && must)
@@ -221,6 +245,9 @@ struct LargeMode
     LargeMode() { g_large = true; }
     ~LargeMode() { g_large = false; }
 };
+
+// the recv_rearm target: setbuf in the middle of the traffic
+static bool g_rearm = false;
 
 Bytes gen_payload(Src &s, const Alphabet &a, size_t maxn)
 {
@@ -336,6 +363,35 @@ void t_recv(Src &s, Case &c, Kind k)
             fault_or_noise = true;
         }
     }
+    if (g_rearm)
+    {
+        // cut the generated traffic anywhere (not between an escape byte and its code: the legacy setbuf documents no
+        // reset of a pending escape) and hand the receiver a new buffer there
+        size_t cut = (size_t)s.below(stream.size() + 1);
+        while (cut > 0 && stream[cut - 1] == a.stub)
+            cut--;
+        Rearm ra;
+        ra.pre.assign(stream.begin(), stream.begin() + (long)cut);
+        ra.pre_cap = s.coin() ? cap : (size_t)s.range(2, 48);
+        Bytes rest(stream.begin() + (long)cut, stream.end());
+        bool mid = false;
+        for (size_t i = cut; i-- > 0;)
+        {
+            if (stream[i] == a.start || stream[i] == a.stop)
+            {
+                mid = stream[i] == a.start && i + 1 < cut;
+                break;
+            }
+        }
+        if (mid)
+            c.label("rearm_inside_a_frame");
+        c.log("%s cap=%zu before-rearm[%zu, cap %zu]=%s after[%zu]=%s", kind_name[k], cap, ra.pre.size(), ra.pre_cap, show(ra.pre).c_str(), rest.size(),
+              show(rest).c_str());
+        c.label(kind_name[k]);
+        c.nontrivial = mid;
+        check_stream(k, cap, rest, c, &ra);
+        return;
+    }
     c.log("%s cap=%zu stream[%zu]=%s", kind_name[k], cap, stream.size(), show(stream).c_str());
     c.label(kind_name[k]);
     if (good_after || overlong)
@@ -344,6 +400,23 @@ void t_recv(Src &s, Case &c, Kind k)
 }
 void t_recv_cfg(Src &s, Case &c) { t_recv(s, c, s.coin() ? K_V1 : K_V0); }
 void t_recv_legacy(Src &s, Case &c) { t_recv(s, c, K_LEGACY); }
+void t_recv_rearm(Src &s, Case &c)
+{
+    struct G
+    {
+        G() { g_rearm = true; }
+        ~G() { g_rearm = false; }
+    } g;
+    switch (s.below(3))
+    {
+    case 0:
+        return t_recv(s, c, K_V1);
+    case 1:
+        return t_recv(s, c, K_V0);
+    default:
+        return t_recv(s, c, K_LEGACY);
+    }
+}
 void t_recv_large(Src &s, Case &c)
 {
     LargeMode lm;
@@ -457,6 +530,11 @@ void t_recv_enum(Src &s, Case &c)
 
 } // namespace
 
+VP_TARGET("recv_rearm", t_recv_rearm,
+          "all three receivers: the traffic of recv_cfg is cut at a random point where the receiver is handed a new exactly-sized buffer through "
+          "init/setbuf (the old one is freed); bounded before and after, and on the part after the re-arm: sound (nothing received before the new "
+          "buffer is delivered: a packet's bytes since the re-arm must un-escape and carry a matching CRC), overflow, and complete from the second "
+          "frame of a run at the latest; non-trivial = the cut falls inside a frame");
 VP_TARGET("recv_large", t_recv_large,
           "all three receivers with capacity 250..262 / 508..516 (one case in five: 65535..65538, 70000, 131072, 131073 with frames of at most 300 bytes): 1..5 segments of the same kinds as recv_cfg, payload lengths up to capacity+3 and "
           "concentrated within 8 bytes of it (frames that just fit / just do not fit a buffer longer than 255 bytes); same four predicates");
